@@ -437,6 +437,9 @@ class FamWorld:
             return "skip:no-seq"
         name = ev["name"]
         args = ev.get("args", {})
+        pre_fn = seqops.PRECOND.get(name)
+        if pre_fn is not None and not pre_fn(s, args):
+            return "skip:precondition"
         _, e = _call(OPS[name][2], s, args)
         self.stats[f"op/{name}"] += 1
         self.stats[f"reach_kind_x_op/{fam.kind}|{name}"] += 1
